@@ -75,6 +75,9 @@ PIPES = {
     "reduce-while-sibling-maps-axis": {"roots": {"x": ["i"], "q": ["j"]}, "sizes": S3, "axes": ["i"], "reduced": ["j"], "funcs": [
         _f("f", ["x", "q"], {"x": ["i"], "q": ["j"]}, ["i", "j"], [], ["e"]),
         _f("g", ["e", "q"], {"e": ["i", None], "q": ["j"]}, ["i", "j"], [], ["p"])]},
+    # a 2-D ROOT input whose axes differ in size (the second one longer): fixing the second axis alone is a valid part
+    "root-2d-unequal-axes": {"roots": {"m": ["i", "j"]}, "sizes": {**S3, "i": 2, "j": 3}, "axes": ["i", "j"], "funcs": [
+        _f("f", ["m"], {"m": ["i", "j"]}, ["i", "j"], [], ["y"]), _f("g", ["y"], {"y": ["i", "j"]}, ["i", "j"], [], ["z"])]},
     "independent-single": {"roots": {"x": ["i"], "n": []}, "sizes": S3, "axes": ["i"], "funcs": [
         _f("f", ["x"], {"x": ["i"]}, ["i"], [], ["y"]), _f("h", ["n"], None, [], [], ["m"])]},
 }
